@@ -3,7 +3,7 @@
    (state-machine scenarios; the real Manager/RedundantMessenger harness).
    Executable definitions only. *)
 From Coq Require Import String ZArith Bool List.
-From PS Require Import Base.Wrap Base.Corr Model.Data Model.Actions Model.Fsm Model.History Model.FsmCorr
+From PS Require Import Base.Wrap Base.Corr Model.Data Model.Actions Model.Fsm Model.History Model.Eqb Model.FsmCorr
   Gen.ConstsSwap Gen.Tables.
 Import ListNotations.
 Open Scope Z_scope.
@@ -24,16 +24,13 @@ Fixpoint starts_ok (b : bool) (es : list effect) : bool :=
 
 (* the message handed to a new retransmitter is opening_tx_broadcasted: every ERetransStart is
    directly followed by the first send of that retransmitter, and it carries an MOtb *)
-Fixpoint retrans_msg_ok (es : list effect) : bool :=
-  match es with
-  | [] => true
-  | ERetransStart :: r =>
-      match r with
-      | ESend _ (MOtb _) :: _ => retrans_msg_ok r
-      | _ => false
-      end
-  | _ :: r => retrans_msg_ok r
-  end.
+Definition rm_step (st : bool * bool) (e : effect) : bool * bool :=
+  let '(ok, pending) := st in
+  if pending then (ok && match e with ESend _ (MOtb _) => true | _ => false end, false)
+  else (ok, match e with ERetransStart => true | _ => false end).
+Definition rm_fold (st : bool * bool) (es : list effect) : bool * bool := fold_left rm_step es st.
+Definition retrans_msg_ok (es : list effect) : bool :=
+  let '(ok, pending) := rm_fold (true, false) es in ok && negb pending.
 
 (* ---------- what an action tree can do to the retransmitter ---------- *)
 Definition retry_leaf : string := "SendMessageWithRetryAction".
@@ -193,3 +190,106 @@ Record e2e_obs := mkE2E {
 Definition e2e_check (c : e2e_obs) : bool := true.
 Definition e2e_monitor (c : e2e_obs) : bool :=
   (2 <=? e_before c) && (e_after c <=? 1) && (e_other_kinds c =? 0).
+
+(* ---------- which message a retransmitter gets (clause 3) ---------- *)
+(* the swap data is consistent: once an opening_tx_broadcasted message is recorded, NextMessage is
+   that message *)
+Definition otb_msg_ok (d : swap_data) : bool :=
+  match d_otb d with
+  | None => true
+  | Some o => match d_next_msg d with Some (MOtb o') => Eqb.otb_eqb o o' | _ => false end
+  end.
+
+Definition opening_leaf : string := "CreateAndBroadcastOpeningTransaction".
+(* the leaves that overwrite NextMessage with something else *)
+Definition builds_other_msg (name : string) : bool :=
+  str_mem name ["CreateSwapRequestAction"; "CreateSwapOutFromRequestAction"; "SwapInReceiverInitAction";
+                "TakerSendPrivkeyAction"]%string.
+
+Fixpoint tree_any (p : string -> bool) (a : action_tree) : bool :=
+  let '(ANode name ch) := a in p name || existsb (tree_any p) ch.
+
+(* the leaf the wrappers lead to (mirrors the dispatch of Actions.exec) *)
+Definition is_wrapper (name : string) : bool :=
+  str_mem name ["CheckRequestWrapperAction"; "SetBlindingKeyActionWrapper"; "StopSendMessageWithRetryWrapperAction";
+                "CheckPremiumAmount"; "AddSuspiciousPeerAction"]%string.
+Fixpoint spine_leaf (fuel : nat) (a : action_tree) : string :=
+  match fuel with
+  | O => ""
+  | S f => let '(ANode name ch) := a in
+           if is_wrapper name then match first_child ch with Some c => spine_leaf f c | None => "" end
+           else name
+  end.
+
+Definition state_any (t : table) (p : string -> bool) (s : string) : bool :=
+  match state_tree t s with Some a => tree_any p a | None => false end.
+
+(* states in which NextMessage may still be overwritten: no opening transaction can be recorded yet *)
+Definition pre_state (t : table) (s : string) : bool := String.eqb s "" || state_any t builds_other_msg s.
+
+Definition Ev_TxOpened : string := "Event_OnTxOpenedMessage".
+
+Definition c22_msg_edge_ok (t : table) (e : string * string * string) : bool :=
+  let '(s, ev, s') := e in
+  (* the peer's opening_tx_broadcasted is never accepted by this role *)
+  negb (String.eqb ev Ev_TxOpened)
+  (* pre-states are entered only from pre-states *)
+  && (if pre_state t s' then pre_state t s else true)
+  (* an announcing state is entered only by the success of the state that builds the opening transaction *)
+  && (if state_may_start t s' then
+        String.eqb ev Ev_Succeeded &&
+        match state_tree t s with Some a => String.eqb (spine_leaf action_fuel a) opening_leaf | None => false end
+      else true).
+
+Definition c22_msg_state_ok (t : table) (s : string) : bool :=
+  (* pre-states neither build the opening transaction nor announce it; announcing states do neither
+     build it nor overwrite NextMessage *)
+  (if pre_state t s then negb (state_any t (String.eqb opening_leaf) s) && negb (state_may_start t s) else true)
+  && (if state_may_start t s then negb (state_any t (String.eqb opening_leaf) s) && negb (state_any t builds_other_msg s) else true).
+
+Definition c22_msg_table_ok (t : table) : bool :=
+  forallb (c22_msg_edge_ok t) (edges t) && forallb (fun e => c22_msg_state_ok t (fst e)) t.
+
+(* the invariant on stored / in-memory machines *)
+Definition has_otb (d : swap_data) : bool := match d_otb d with Some _ => true | None => false end.
+
+Definition msg_inv (t : table) (s : string) (d : swap_data) : bool :=
+  otb_msg_ok d
+  && (if pre_state t s then negb (has_otb d) else true)
+  && (if state_may_start t s then has_otb d else true).
+
+(* what the environment may send: a message of kind opening_tx_broadcasted comes only with its
+   own event, and service events are never the internal Event_ActionSucceeded (History.service_event) *)
+Definition msg_input_ok (i : input) : bool :=
+  match i with
+  | InEvent ev ctx =>
+      negb (String.eqb ev Ev_Succeeded)
+      && match ctx with Some (MOtb _) => String.eqb ev Ev_TxOpened | _ => true end
+  | _ => true
+  end.
+
+(* all histories: every step's effects hand only opening_tx_broadcasted to a retransmitter
+   (the full effect list of the step is judged also when the process dies inside it) *)
+Section MsgHist.
+Variable tc : tl_consts.
+Variable decode : string -> option (string * Z * Z).
+Variable t : table.
+Variable terminal : list string.
+
+Definition msg_hist_step (st : hstate * bool) (it : hitem) : hstate * bool :=
+  let '(h, ok) := st in
+  let h' := hist_step tc decode t terminal h it in
+  match hs_machine h with
+  | None => (h', ok)
+  | Some m0 =>
+    match (if is_recover (item_input it) then restore m0 (hs_trace h) else Some m0) with
+    | None => (h', ok)
+    | Some m =>
+      let '(_, _, es) := run_step tc decode t terminal m (item_input it) (match it with HStep _ w | HCrash _ w _ => w end) in
+      (h', ok && retrans_msg_ok es)
+    end
+  end.
+
+Definition msg_hist (m0 : machine) (its : list hitem) : hstate * bool :=
+  fold_left msg_hist_step its (init_hstate m0, true).
+End MsgHist.
